@@ -107,6 +107,13 @@ def gen_loop():
         drop_exact = False
     else:
         drop_exact = prev_value("Loop.lean", "ereadyDropExactRead", "true") == "true"
+    # thread-per-connection: is `suspended` looked at again after the idle call that follows a resume?
+    tb = _func_body(dsrc, "thread_main_handle_connection") or ""
+    k = tb.find("was_suspended = false;", max(tb.find("MHD_connection_handle_idle (con)"), 0))   # the one after the idle call
+    if k >= 0:
+        tpc_recheck = bool(re.match(r"\s*if\s*\(\s*con->suspended\s*\)\s*continue\s*;", tb[k + len("was_suspended = false;"):k + 200]))
+    else:
+        tpc_recheck = prev_value("Loop.lean", "tpcRechecksSuspend", "true") == "true"
     # the state -> event_loop_info table of MHD_connection_update_event_loop_info (unconditional cases only)
     csrc = src("src/microhttpd/connection.c")
     body = _func_body(csrc, "MHD_connection_update_event_loop_info") or ""
@@ -140,6 +147,8 @@ def gen_loop():
         out += "def %s : Bool := %s\n" % (k, "true" if flags[k] else "false")
     out += "/-- MHD_epoll drops a connection from eready for `READ == event_loop_info` (not for `READ & event_loop_info`) -/\n"
     out += "def ereadyDropExactRead : Bool := %s\n" % ("true" if drop_exact else "false")
+    out += "/-- thread_main_handle_connection goes back to the suspended branch if the post-resume idle call suspended again -/\n"
+    out += "def tpcRechecksSuspend : Bool := %s\n" % ("true" if tpc_recheck else "false")
     out += "/-- states for which MHD_connection_update_event_loop_info unconditionally answers READ / WRITE / PROCESS -/\n"
     for cls, nm in (("READ", "readStates"), ("WRITE", "writeStates"), ("PROCESS", "processStates")):
         if table:
@@ -266,7 +275,7 @@ class Case:
         sp = max([p.get("sigpipe", 0) for p in self.P] + [0])
         tcp = max([p.get("tcp", 0) for p in self.P] + [0])
         out = ["case " + self.name,
-               "cfg mode=%s suspend=%d%s%s%s" % (self.mode, self.suspend, (" sigpipe=1" if sp else "") + (" tcp=1" if tcp else ""), " mem=%d" % mem if mem else "", " timeout=%d" % self.timeout if self.timeout else ""),
+               "cfg mode=%s suspend=%d%s%s%s" % ("poll-thr" if self.mode == "poll" else self.mode, self.suspend, (" sigpipe=1" if sp else "") + (" tcp=1" if tcp else ""), " mem=%d" % mem if mem else "", " timeout=%d" % self.timeout if self.timeout else ""),
                "start"]
         for p in self.P:
             out += p["setup"]
@@ -431,7 +440,7 @@ def canon_state(snap, rep, mode):
 def to_driver(case, items):
     """-> (driver input lines, expected output lines, labels) for one case"""
     mode = case.mode
-    inp = ["mode %s suspend=%d" % (mode, case.suspend)]
+    inp = ["mode %s suspend=%d" % ("pollthr" if mode == "poll" else mode, case.suspend)]
     exp = ["ok"]
     lab = ["mode"]
     for it in items:
@@ -737,12 +746,18 @@ def gen_directed():
     one = [("A",), ("Q",)]
     two = [("A", "A"), ("Q", "-"), ("-", "Q")]
     two_b = [("A", "A"), ("Q", "Q")]
-    for mode in ("select", "epoll"):
-        for strict in (False, True):
+    for mode in ("select", "epoll", "poll"):
+        for strict in ((False, True) if mode != "poll" else (True,)):
             for profs, evs in ((["k"], one), (["G", "k"], two), (["G", "k"], two_b), (["k", "G"], two), (["p"], one), (["G", "p"], two),
                                (["G", "K"], two), (["k", "k"], two_b), (["F"], one), (["G", "F"], two), (["F", "C"], two_b), (["f"], one),
                                (["o"], one), (["u"], one), (["t"], one), (["G", "o"], two), (["o", "C"], two_b)):
                 cases.append(Case("d", mode, profs, evs, drain=100, strict=strict))
+    # late replies in every back-end: the handler suspends, another thread resumes while the loop is idle
+    for mode in ("select", "epoll", "poll"):
+        for profs, evs in ((["S"], [("A",), ("Q",), ("-",), ("U",)]), (["L"], [("A",), ("Q",), ("-",), ("U",)]),
+                           (["S", "G"], [("A", "A"), ("Q", "Q"), ("-", "-"), ("U", "-")]),
+                           (["C", "S"], [("A", "A"), ("Q", "Q"), ("-", "-"), ("-", "-"), ("-", "-"), ("-", "-"), ("-", "U")])):
+            cases.append(Case("d", mode, profs, evs, drain=100, strict=True))
     for shape in "OUTo":
         full = len(profile(shape, 0)["req"])
         for n in range(1024 - 72, 1024 + 4):
@@ -798,7 +813,7 @@ def gen_random(rng, mode, nconn=None):
                 s["res"] = True
             ev.append(a)
         evs.append(tuple(ev))
-    tmo = rng.choice([0, 0, 0, 0, 5]) if mode == "select" else 0   # timeout lists are C10's; the epoll model needs 0
+    tmo = rng.choice([0, 0, 0, 0, 5]) if mode in ("select", "poll") else 0   # timeout lists are C10's; the epoll model needs 0
     susp = 1 if any(p.get("suspends") for p in P) or rng.random() < 0.6 else 0
     return Case("r", mode, profs, evs, drain=100 if small else 30, timeout=tmo, strict=rng.random() < 0.5, suspend=susp)
 
@@ -1002,6 +1017,11 @@ class Spec:
         nsel = len(exh)
         for L in range(1, exh_len + 1):
             exh += list(gen_exhaustive("epoll", L, pairs_ep))
+        pairs_poll = [("G", "C"), ("C", "G"), ("S", "C"), ("C", "S"), ("S", "S")] if not thorough else [(a, b) for a in "GCSk" for b in "GCSk"]
+        npoll0 = len(exh)
+        for L in range(1, exh_len + 1):      # the internal poll thread, driven in lock-step (it runs only when its poll() would return)
+            exh += list(gen_exhaustive("poll", L, pairs_poll, strict=True))
+        npoll = len(exh) - npoll0
         nstrict0 = len(exh)
         for L in range(1, exh_len):        # the same schedules with an application that calls the loop only when obliged to
             exh += list(gen_exhaustive("select", L, pairs_sel, strict=True))
@@ -1011,7 +1031,7 @@ class Spec:
             exh += list(gen_exhaustive("select", L, nosusp, strict=True, suspend=0))
             exh += list(gen_exhaustive("epoll", L, nosusp, strict=True, suspend=0))
         nrand = (20000 if thorough else 1500) * (3 if boost else 1)
-        rnd = [gen_random(ctx.rng, ctx.rng.choice(["select", "select", "epoll"])) for _ in range(nrand)]
+        rnd = [gen_random(ctx.rng, ctx.rng.choice(["select", "select", "epoll", "poll"])) for _ in range(nrand)]
         allc = cases + exh + rnd
         self.run_parallel(allc, failures, stats)
         # the same client bytes must be answered (or not) independently of the polling back-end
@@ -1044,12 +1064,13 @@ class Spec:
                        "connections, per-connection actions {-,A,Q,X,U,H}, profile pairs select=%d epoll=%d; random: 1..3 connections, 14+ profiles"
                        % (exh_len, len(pairs_sel), len(pairs_ep)),
                "samples": [allc[ncorp].key() if len(allc) > ncorp else "", exh[len(exh) // 2].key(), rnd[0].key() if rnd else ""],
-               "exhaustive_schedules_select": nsel, "exhaustive_schedules_epoll": nstrict0 - nsel,
+               "exhaustive_schedules_select": nsel, "exhaustive_schedules_epoll": npoll0 - nsel, "exhaustive_schedules_poll_thread": npoll,
                "exhaustive_schedules_strict_application": len(exh) - nstrict0, "exhaustive_bound_events": exh_len,
                "random_histories": len(rnd), "corpus": ncorp, "directed": len(directed), "modes": modes, "profiles": profs, "outcomes": stats,
                "correspondence": {"call_handlers / internal_run_from_select / MHD_epoll / resume / new-connection processing / cleanup / "
                                   "internal_get_fdset2 / MHD_get_timeout64 (class)": "bounded-exhaustive (schedules <= %d events, 2 connections) + random %d" % (exh_len, len(rnd)),
-                                  "MHD_poll_all": "model and theorems only (no external poll mode exists; internal-thread lock-step not built)"},
+                                  "MHD_poll_all (internal thread, gated poll(): one release = one cycle, the timeout argument is the hint)":
+                                      "bounded-exhaustive (schedules <= %d events, 2 connections, %d profile pairs) + directed + random share" % (exh_len, len(pairs_poll))},
                "exhaustive": False}
         return failures, cov
 
